@@ -25,7 +25,7 @@ ASSUMPTIONS = ['restart(timeout=0.5) is used because the default None legitimate
 SHRINK = 'none'
 TIME_BUDGET = {'quick': 170, 'thorough': 1700}
 STATES = ['fresh', 'unread', 'queued', 'closed', 'error', 'killed', 'stuck']
-REQUIRED = {'quick': {'state:' + s_: 15 for s_ in STATES}, 'thorough': {'state:' + s_: 150 for s_ in STATES}}
+REQUIRED = {'quick': {'state:' + s_: 15 for s_ in STATES}, 'thorough': {'state:' + s_: 60 for s_ in STATES}}
 REQUIRED['quick']['pipe:supplied'] = 100
 REQUIRED['quick']['falsy_userid'] = 100
 REQUIRED['quick']['pool_with_unstoppable_worker'] = 20
